@@ -69,6 +69,7 @@ pub struct Event {
     pub at: usize,
 }
 
+#[derive(Clone)]
 pub struct ModuleSource {
     pub program: Option<Vec<Stmt>>,
     /// when the module is meant not to compile
